@@ -13813,3 +13813,346 @@ func E11SVGMatrixOrder(c *core.Ctx, r *core.Report) {
 	r.Count("E11.svg-matrix-sites", n)
 	r.Floor("E11.svg-matrix-sites", 1)
 }
+
+// E11ArcRotationRewritten: a transformed arc keeps its stored rotation only under a uniform scaling.
+func E11ArcRotationRewritten(c *core.Ctx, r *core.Report) {
+	r.Rule("E11.arc-rotation-rewritten", "Path.Transform, arc case: every branch that rewrites the end point of the arc record (slots +5, +6) and leaves the case also rewrites the stored rotation (slot +3), or is guarded by a test that the two diagonal entries of the matrix are equal *with their signs* (`m[0][0] == m[1][1]`, directly or through Equal) — a translation or uniform scaling, which keeps the axes of the ellipse. A guard on the absolute values also lets the axis reflections through (`Scale(1,-1)`), which turn the rotation φ into −φ: the reflected arc keeps the old rotation between mirrored end points and Bounds(reflect(p)) is no longer reflect(Bounds(p))")
+	p := c.MustPkg("")
+	info := p.TypesInfo
+	fd := core.MustFuncDecl(p, "Path.Transform")
+	mObj := paramObj(info, fd, 0)
+	var arc *ast.CaseClause
+	for _, cc := range cmdSwitchClauses(p, fd) {
+		if strings.Contains(core.CaseLabel(info, cc), "ArcToCmd") {
+			arc = cc
+		}
+	}
+	if arc == nil {
+		panic(core.Infra("Path.Transform: the ArcToCmd case was not found"))
+	}
+	slots := func(nd ast.Node) map[int]bool {
+		out := map[int]bool{}
+		ast.Inspect(nd, func(k ast.Node) bool {
+			if as, ok := k.(*ast.AssignStmt); ok {
+				for _, l := range as.Lhs {
+					if ie, ok := core.Unparen(l).(*ast.IndexExpr); ok && core.IsPathDataSel(info, ie.X) {
+						if _, off, ok := linForm(info, ie.Index); ok {
+							out[off] = true
+						}
+					}
+				}
+			}
+			return true
+		})
+		return out
+	}
+	leaves := func(b *ast.BlockStmt) bool {
+		if len(b.List) == 0 {
+			return false
+		}
+		switch x := b.List[len(b.List)-1].(type) {
+		case *ast.BranchStmt:
+			return x.Tok == token.CONTINUE || x.Tok == token.BREAK
+		case *ast.ReturnStmt:
+			return true
+		}
+		return false
+	}
+	// isDiag: m[k][k]
+	isDiag := func(e ast.Expr, k int64) bool {
+		outer, ok := core.Unparen(e).(*ast.IndexExpr)
+		if !ok {
+			return false
+		}
+		inner, ok := core.Unparen(outer.X).(*ast.IndexExpr)
+		if !ok {
+			return false
+		}
+		id, ok := core.Unparen(inner.X).(*ast.Ident)
+		if !ok || core.ObjOf(info, id) != mObj {
+			return false
+		}
+		a, ok1 := core.ConstInt(info, inner.Index)
+		b, ok2 := core.ConstInt(info, outer.Index)
+		return ok1 && ok2 && a == k && b == k
+	}
+	var signedEq func(e ast.Expr, depth int) bool
+	signedEq = func(e ast.Expr, depth int) bool {
+		if depth > 4 {
+			return false
+		}
+		found := false
+		ast.Inspect(e, func(k ast.Node) bool {
+			switch x := k.(type) {
+			case *ast.BinaryExpr:
+				if x.Op == token.EQL && ((isDiag(x.X, 0) && isDiag(x.Y, 1)) || (isDiag(x.X, 1) && isDiag(x.Y, 0))) {
+					found = true
+				}
+			case *ast.CallExpr:
+				if f := core.CalleeOf(info, x); f != nil && f.Name() == "Equal" && len(x.Args) == 2 {
+					if (isDiag(x.Args[0], 0) && isDiag(x.Args[1], 1)) || (isDiag(x.Args[0], 1) && isDiag(x.Args[1], 0)) {
+						found = true
+					}
+				}
+			case *ast.Ident:
+				// a bool local: follow its one definition
+				if o := core.ObjOf(info, x); o != nil {
+					if bt, ok := o.Type().Underlying().(*types.Basic); ok && bt.Info()&types.IsBoolean != 0 {
+						ast.Inspect(fd.Body, func(q ast.Node) bool {
+							if as, ok := q.(*ast.AssignStmt); ok && len(as.Lhs) == len(as.Rhs) {
+								for i, l := range as.Lhs {
+									if lid, ok := l.(*ast.Ident); ok && core.ObjOf(info, lid) == o && signedEq(as.Rhs[i], depth+1) {
+										found = true
+									}
+								}
+							}
+							return true
+						})
+					}
+				}
+			}
+			return true
+		})
+		return found
+	}
+	n := 0
+	ast.Inspect(&ast.BlockStmt{List: arc.Body}, func(k ast.Node) bool {
+		is, ok := k.(*ast.IfStmt)
+		if !ok || !leaves(is.Body) {
+			return true
+		}
+		s := slots(is.Body)
+		if !(s[5] || s[6]) {
+			return true
+		}
+		n++
+		key := fmt.Sprintf("canvas.Path.Transform|arc rewritten under `%s`", c.Src(is.Cond))
+		switch {
+		case s[3]:
+			r.OK("E11.arc-rotation-rewritten", key, c.Pos(is.Pos()), "the rotation is rewritten too")
+		case signedEq(is.Cond, 0):
+			r.OK("E11.arc-rotation-rewritten", key, c.Pos(is.Pos()), "guarded by the signed equality of the diagonal")
+		default:
+			r.Fail("E11.arc-rotation-rewritten", key, c.Pos(is.Pos()), "this branch maps the arc's end point and leaves its stored rotation as it is, without a test that m[0][0] and m[1][1] are equal with their signs: an axis reflection passes (|m00| = |m11|), and the reflected arc keeps the un-mirrored rotation (`M5 3L20 3A30 10 30 1 1 50 25z` under ReflectX)")
+		}
+		return true
+	})
+	// the main path
+	s := slots(&ast.BlockStmt{List: arc.Body})
+	if s[5] && s[6] && s[3] {
+		r.OK("E11.arc-rotation-rewritten", "canvas.Path.Transform|arc case rewrites end point and rotation", c.Pos(arc.Pos()), fmt.Sprintf("%d early branches", n))
+	} else {
+		r.Fail("E11.arc-rotation-rewritten", "canvas.Path.Transform|arc case rewrites end point and rotation", c.Pos(arc.Pos()), "the arc case does not rewrite the end point and the rotation of the record")
+	}
+	r.Count("E11.arc-rotation-rewritten", 1)
+}
+
+// E11SpanOffsetAxes: the origin WalkSpans reports for a span, per writing mode.
+func E11SpanOffsetAxes(c *core.Ctx, r *core.Report) {
+	r.Rule("E11.span-offset-axes", "Text.WalkSpans hands the PDF and SVG writers the origin of every span; RenderAsPath places the outlines at (span.X, −line.y) in horizontal and (line.y, −span.X) in vertical writing modes and FontFace.toPath adds the face's XOffset to x and its YOffset to y (sub- and superscripts). The two arguments of every callback call in WalkSpans are evaluated as polynomials over span.X, line.y and the two offsets, branch by branch of the writing-mode test and through parallel assignments: horizontally (span.X + mm·XOffset, −line.y + mm·YOffset), vertically (line.y + mm·XOffset, −span.X + mm·YOffset). Exchanged or negated offsets move a superscript in vertical text away from where path rendering draws it")
+	p := c.MustPkg("")
+	info := p.TypesInfo
+	fd := core.MustFuncDecl(p, "Text.WalkSpans")
+	cb := paramObj(info, fd, 0)
+	sym := func(e ast.Expr) string {
+		e = core.Unparen(e)
+		for {
+			call, ok := e.(*ast.CallExpr)
+			if !ok || len(call.Args) != 1 {
+				break
+			}
+			if tv, ok := info.Types[call.Fun]; !ok || !tv.IsType() {
+				break
+			}
+			e = core.Unparen(call.Args[0])
+		}
+		if se, ok := e.(*ast.SelectorExpr); ok {
+			switch se.Sel.Name {
+			case "X":
+				if isNamedDeref(info.TypeOf(se.X), "TextSpan") {
+					return "spanX"
+				}
+			case "y":
+				return "lineY"
+			case "MmPerEm":
+				return "mm"
+			case "XOffset":
+				return "XOff"
+			case "YOffset":
+				return "YOff"
+			}
+		}
+		return ""
+	}
+	type env map[types.Object]poly
+	type result struct {
+		mode string
+		x, y poly
+		ok   bool
+		pos  token.Pos
+	}
+	var results []result
+	eval := func(e ast.Expr, en env) (poly, bool) {
+		return polyOf(info, e, func(x ast.Expr) string {
+			if id, ok := core.Unparen(x).(*ast.Ident); ok {
+				if _, has := en[core.ObjOf(info, id)]; has {
+					return "§" + id.Name
+				}
+			}
+			return sym(x)
+		}, nil)
+	}
+	subst := func(pl poly, en env, names map[string]types.Object) poly {
+		// replace §name symbols by their polynomials
+		out := poly{}
+		for k, coef := range pl {
+			term := poly{"": coef}
+			if k != "" {
+				for _, f := range strings.Split(k, "*") {
+					if strings.HasPrefix(f, "§") {
+						term = polyMul(term, en[names[f[2:]]])
+					} else {
+						term = polyMul(term, poly{f: 1})
+					}
+				}
+			}
+			out = polyAdd(out, term, 1)
+		}
+		return polyTrim(out)
+	}
+	var run func(list []ast.Stmt, en env, mode string)
+	run = func(list []ast.Stmt, en env, mode string) {
+		names := map[string]types.Object{}
+		for o := range en {
+			names[o.Name()] = o
+		}
+		for idx, st := range list {
+			switch x := st.(type) {
+			case *ast.AssignStmt:
+				if len(x.Lhs) != len(x.Rhs) {
+					continue
+				}
+				vals := make([]poly, len(x.Rhs))
+				oks := make([]bool, len(x.Rhs))
+				for i, rhs := range x.Rhs {
+					pl, ok := eval(rhs, en)
+					if ok {
+						pl = subst(pl, en, names)
+					}
+					vals[i], oks[i] = pl, ok
+				}
+				for i, l := range x.Lhs {
+					if id, ok := l.(*ast.Ident); ok && oks[i] {
+						o := core.ObjOf(info, id)
+						en[o] = vals[i]
+						names[o.Name()] = o
+					}
+				}
+			case *ast.IfStmt:
+				be, ok := core.Unparen(x.Cond).(*ast.BinaryExpr)
+				thenMode, elseMode := mode, mode
+				if ok && (be.Op == token.EQL || be.Op == token.NEQ) && (core.ConstName(info, be.Y) == "HorizontalTB" || core.ConstName(info, be.X) == "HorizontalTB") {
+					if be.Op == token.EQL {
+						thenMode, elseMode = "horizontal", "vertical"
+					} else {
+						thenMode, elseMode = "vertical", "horizontal"
+					}
+				}
+				cp := func() env {
+					o := env{}
+					for k, v := range en {
+						o[k] = v
+					}
+					return o
+				}
+				rest := list[idx+1:]
+				if thenMode != mode || elseMode != mode {
+					run(append(append([]ast.Stmt{}, x.Body.List...), rest...), cp(), thenMode)
+					if eb, ok := x.Else.(*ast.BlockStmt); ok {
+						run(append(append([]ast.Stmt{}, eb.List...), rest...), cp(), elseMode)
+					} else {
+						run(rest, cp(), elseMode)
+					}
+					return
+				}
+			case *ast.ExprStmt:
+				call, ok := x.X.(*ast.CallExpr)
+				if !ok || len(call.Args) < 2 {
+					continue
+				}
+				if id, ok := call.Fun.(*ast.Ident); !ok || core.ObjOf(info, id) != cb {
+					continue
+				}
+				px, ok1 := eval(call.Args[0], en)
+				py, ok2 := eval(call.Args[1], en)
+				if ok1 && ok2 {
+					px, py = subst(px, en, names), subst(py, en, names)
+				}
+				results = append(results, result{mode, px, py, ok1 && ok2, call.Pos()})
+			}
+		}
+	}
+	// the body of the loop over the spans
+	var body *ast.BlockStmt
+	ast.Inspect(fd.Body, func(m ast.Node) bool {
+		if rs, ok := m.(*ast.RangeStmt); ok {
+			hasCb := false
+			for _, st := range rs.Body.List {
+				ast.Inspect(st, func(k ast.Node) bool {
+					if call, ok := k.(*ast.CallExpr); ok {
+						if id, ok := call.Fun.(*ast.Ident); ok && core.ObjOf(info, id) == cb {
+							hasCb = true
+						}
+					}
+					return true
+				})
+			}
+			if hasCb {
+				body = rs.Body
+			}
+		}
+		return true
+	})
+	if body == nil {
+		panic(core.Infra("Text.WalkSpans: the loop that calls the callback was not found"))
+	}
+	run(body.List, env{}, "")
+	want := map[string][2]poly{
+		"horizontal": {poly{"spanX": 1, "XOff*mm": 1}, poly{"lineY": -1, "YOff*mm": 1}},
+		"vertical":   {poly{"lineY": 1, "XOff*mm": 1}, poly{"spanX": -1, "YOff*mm": 1}},
+	}
+	seen := map[string]bool{}
+	for _, res := range results {
+		key := "canvas.Text.WalkSpans|origin of a span, " + res.mode + " writing"
+		seen[res.mode] = true
+		w, known := want[res.mode]
+		switch {
+		case !known:
+			r.Fail("E11.span-offset-axes", "canvas.Text.WalkSpans|callback outside a writing-mode branch", c.Pos(res.pos), "a callback call whose writing mode is not decided by a test against HorizontalTB")
+		case !res.ok:
+			r.Fail("E11.span-offset-axes", key, c.Pos(res.pos), "the arguments are not polynomials in span.X, line.y and the face offsets")
+		case !polyEqual(res.x, w[0]) || !polyEqual(res.y, w[1]):
+			r.Fail("E11.span-offset-axes", key, c.Pos(res.pos), fmt.Sprintf("the span is reported at (%s, %s), path rendering draws it at (%s, %s)", res.x, res.y, w[0], w[1]))
+		default:
+			r.OK("E11.span-offset-axes", key, c.Pos(res.pos), fmt.Sprintf("(%s, %s)", res.x, res.y))
+		}
+	}
+	for _, m := range []string{"horizontal", "vertical"} {
+		if !seen[m] {
+			r.Fail("E11.span-offset-axes", "canvas.Text.WalkSpans|origin of a span, "+m+" writing", c.Pos(fd.Pos()), "no callback call found for this writing mode")
+		}
+	}
+	r.Count("E11.span-offset-axes", len(results))
+	r.Floor("E11.span-offset-axes", 2)
+}
+
+func isNamedDeref(t types.Type, name string) bool {
+	if t == nil {
+		return false
+	}
+	if pt, ok := t.(*types.Pointer); ok {
+		t = pt.Elem()
+	}
+	nt, ok := t.(*types.Named)
+	return ok && nt.Obj().Name() == name
+}
